@@ -156,7 +156,9 @@ WORDS = ["gb_27", "ga_15", "0.153", "1.25e+03", "C1", "OW", "SOL", "1", "2", "3"
 COMMENTS = ["", " ", "   ", " a comment", "comment", " qtot 1.0", " one ; two", ";", ";; double",
             " # hash in comment", "#hash", " [ not a section", " tab\there ", "\ttab",
             # bracketed words INSIDE comments (units, references, a commented-out directive): not section headers
-            " ai aj funct b0 [nm] kb [kJ mol-1 nm-2]", "[ dihedrals ]", " [ref]", " see [bonds] above", "[x]"]
+            " ai aj funct b0 [nm] kb [kJ mol-1 nm-2]", "[ dihedrals ]", " [ref]", " see [bonds] above", "[x]",
+            # a comment that ends in a backslash (ASCII sketches of the molecule): NOT a line continuation
+            "   \\", " C1 \\", "\\"]
 PP = ["#include \"forcefield.itp\"", "#ifdef POSRES", "#endif", "#define X 1", "#ifndef FLEX", "#else",
       "#", "# spaced"]
 
